@@ -11,10 +11,10 @@ from harness.common.core import rat
 from harness.pyx import drift
 
 ID = "C09"
-LEAN_TARGETS = ["ChmpyVerif.Props.C09"]
+LEAN_TARGETS = ["ChmpyVerif.Props.C09", "ChmpyVerif.Props.C09Real"]
 T = "ChmpyVerif.Props.C09."
 THEOREMS = [T + n for n in ("rebracket_mid", "swapBest_mid", "body_spec", "iterate_spec", "brent_noBracket_iff", "brent_noBracket_value",
-                            "brent_converged", "brent_congr", "radius_perm", "radius_rigid")]
+                            "brent_converged", "brent_congr", "radius_perm", "radius_rigid", "brent_converged_root")]
 TRUSTED = [
     "hand model Model/Brent.lean of brents_pro / brents_stock — ONE generic definition, proved for ℚ, executed with Float in the driver; the real "
     "code computes in float32 (radii compared to 2e-4 A)",
@@ -22,16 +22,17 @@ TRUSTED = [
     "(a ZeroDivisionError swallowed by a noexcept function returns 0)",
     "rotation invariance of the invariants given the coefficients is C08's theorems, exactness of the transform C07's; what is NOT proved is the "
     "size of the discretisation error of sampling a non-band-limited radial function — the oracle measures it and checks that it shrinks with l_max",
-    "continuity of the scalar field (for a sign change to imply a root) is not formalised",
+    "for a CONTINUOUS field a converged result lies within the tolerance of a true root (brent_converged_root, ℝ, intermediate value theorem); "
+    "that the tabulated density / weight along a ray is continuous is not formalised",
     "the prebuilt _density extension is a faithful compilation of the .pyx reconstructed from its .c (drift guard)",
 ]
 RULE = ("molecules: water, methanol, acetic acid, benzene-like ring, random 3-9 atom clusters of H/C/N/O/F/S/Cl; interior/exterior partitions; "
         "rigid motions (translation up to 30 A, random rotations), permutations; l_max in {4, 6, 8, 12}; surfaces promolecule / stockholder; "
         "property none / d_norm / esp; distinct = distinct (molecule, l_max, kind, motion seed); non-trivial = more than one atom")
 MANIFEST = {
-    "text": ("Proof (partial). Proved on the exact-rational model of the Brent root finder, for every scalar function, bounds, tolerances and iteration "
+    "text": ("Proof (partial). Proved for the Brent root finder over ANY ordered field (ℚ for the executable model, ℝ for the analytic corollary), for every scalar function, bounds, tolerances and iteration "
              "budget: the loop maintains a bracket (invariant), 'not found' (-1, turned into ValueError) is returned exactly when the function has the "
-             "same strict sign at both bounds, and a converged result is an exact zero or one end of a sign change narrower than xtol + tol|x|; the "
+             "same strict sign at both bounds, and a converged result is an exact zero or one end of a sign change narrower than xtol + tol|x| — hence, over ℝ and for a continuous field, within that distance of a true root; the "
              "result depends on the field only through its restriction to the ray, hence (with C05's density theorems) the radius is unchanged by any "
              "reordering of the atoms and by any rigid motion applied to atoms, origin and direction together. With C07 (exact transform) and C08 "
              "(rotation-invariant invariants) this gives pose independence up to the discretisation error, which is measured, not proved."),
